@@ -65,7 +65,10 @@ def flagOf (d : Dict) (key : String) : Except Err Bool :=
   | some .null => .ok false
   | some (.bool b) => .ok b
   | some (.int i) => .ok (i != 0)
-  | some _ => .error .unmodelled
+  | some (.name _) => .ok true                 -- a PSLiteral has neither `__bool__` nor `__len__`
+  | some (.arr xs) => .ok (!xs.isEmpty)
+  | some (.dict d) => .ok (!d.isEmpty)
+  | some .other => .error .unmodelled          -- real numbers, strings, streams: outside the model
 
 /-- `K = params.get("K")` compared with `-1` (a real number could compare equal: outside the model) -/
 def kOf (d : Dict) : Except Err (Option Int) :=
